@@ -89,6 +89,27 @@ Theorem trunc_parses_update : forall o pad m z max_size request_payload w,
 Proof. exact trunc_parses_update_lemma. Qed.
 Print Assumptions trunc_parses_update.
 
+(* truncation is maximal ("a record set that does not fit is removed": one that was removed did not fit): in the
+   very split of trunc_prefix, the prefix extended by the first record set that was left out cannot be rendered at
+   the same limit - without prefer_truncation it raises TooBig (any message, TSIG, padding) *)
+Theorem trunc_maximal : forall m o max_size request_payload pad w,
+  to_wire m o max_size request_payload true pad = Ok w ->
+  exists q1 q2 a1 a2 u1 u2 d1 d2,
+    mq m = q1 ++ q2 /\ man m = a1 ++ a2 /\ mau m = u1 ++ u2 /\ mad m = d1 ++ d2 /\
+    (q2 <> [] -> a1 = [] /\ u1 = [] /\ d1 = []) /\ (a2 <> [] -> u1 = [] /\ d1 = []) /\ (u2 <> [] -> d1 = []) /\
+    to_wire (cut_msg m (if cut_before q2 a2 u2 then Z.lor (mflags m) fTC else mflags m) q1 a1 u1 d1)
+            o max_size request_payload false pad = Ok w /\
+    (forall rs l3, q2 = rs :: l3 ->
+       to_wire (cut_msg m (mflags m) (q1 ++ [rs]) [] [] []) o max_size request_payload false pad = Lib eTooBig) /\
+    (forall rs l3, q2 = [] -> a2 = rs :: l3 ->
+       to_wire (cut_msg m (mflags m) q1 (a1 ++ [rs]) [] []) o max_size request_payload false pad = Lib eTooBig) /\
+    (forall rs l3, q2 = [] -> a2 = [] -> u2 = rs :: l3 ->
+       to_wire (cut_msg m (mflags m) q1 a1 (u1 ++ [rs]) []) o max_size request_payload false pad = Lib eTooBig) /\
+    (forall rs l3, q2 = [] -> a2 = [] -> u2 = [] -> d2 = rs :: l3 ->
+       to_wire (cut_msg m (mflags m) q1 a1 u1 (d1 ++ [rs])) o max_size request_payload false pad = Lib eTooBig).
+Proof. exact trunc_prefix_maximal_lemma. Qed.
+Print Assumptions trunc_maximal.
+
 (* ---- the limit itself ---- *)
 (* max_size = 0 means the request payload, else 65535; limits are clamped to 512..65535; nothing else
    (in particular not the payload advertised by the message's own OPT record) enters the limit *)
@@ -139,6 +160,15 @@ Theorem trunc_no_toobig : forall m o max_size request_payload tr,
   to_wire m o max_size request_payload true 0 <> Lib eTooBig.
 Proof. exact trunc_no_toobig_lemma. Qed.
 Print Assumptions trunc_no_toobig.
+
+(* known finding C08-reserve-valueerror, as a theorem: "rendering either raises TooBig or (prefer_truncation)
+   returns a truncated message" does NOT hold when the reserved OPT/TSIG octets alone exceed the limit -
+   Renderer.reserve raises ValueError (pinned by tests/test_renderer.py); the same message renders at 65535 *)
+Theorem toobig_or_truncated_refuted :
+  exists m, to_wire m None 512 0 true 0 = Internal iValueError /\ to_wire m None 512 0 false 0 = Internal iValueError /\
+            exists w, to_wire m None 65535 0 false 0 = Ok w.
+Proof. exact toobig_or_truncated_refuted_lemma. Qed.
+Print Assumptions toobig_or_truncated_refuted.
 
 (* ---- dns.renderer.Renderer used directly ---- *)
 (* a Renderer created with max_size, after ANY sequence of add_question / add_rrset / reserve /
